@@ -17,4 +17,6 @@ import Bmc.Proofs.C15Float
 #print axioms Bmc.Proofs.C15.convert_error
 #print axioms Bmc.Proofs.C15.five_roundings
 #print axioms Bmc.Proofs.C15.convert_within_6u
+#print axioms Bmc.Proofs.C15.convert_binary64_within_6u
+#print axioms Bmc.Proofs.C15.driver_prints_convertFloat
 #print axioms Bmc.Proofs.C15.convert_exact_rounding
